@@ -75,6 +75,8 @@ package dbft
 //@ ghost gTimerExt Int
 // successful hand-overs to the application: pre-blocks and blocks the callbacks accepted
 //@ ghost gPreBlockOK Int
+// payloads handed to OnReceive so far (by the application or by the replay of the cache)
+//@ ghost gInbound Int
 //@ ghost gAccepted Int
 //@ ghost gClock Int
 //@ ghost gPool RefSeq Transaction
@@ -130,6 +132,8 @@ package dbft
 // C11: what the node noted about a sender being alive only moves forward (height first, then view)
 //@ pred seenMono() = forall(i, 0, NN(), implies(i != self.MyIndex && old(self.LastSeenMessage[i]) != nil && old(self.LastSeenMessage[i].Height) == self.BlockIndex,
 //@        self.LastSeenMessage[i] != nil && self.LastSeenMessage[i].Height == self.BlockIndex && self.LastSeenMessage[i].View >= old(self.LastSeenMessage[i].View)))
+// (stated for the first table that is replayed: what the replay of one table does to the detached inbox is outside the model)
+//@ pred nonEmptyInbox(b) = exists(k, has(b.prepare, k))
 //@ pred cacheSame() = unchanged(self.cache.mail) && forallOf(inbox, b, unchanged(b.prepare, b.chViews, b.preCommit, b.commit))
 //@ pred cacheOK() = !isnil(self.cache.mail) && forall(h, implies(has(self.cache.mail, h), inboxOK(self.cache.mail[h])))
 //@ pred heapMono() = forallOf(inbox, b, implies(old(inboxOK(b)), inboxOK(b)))
@@ -357,7 +361,7 @@ package dbft
 //@   use INV
 //@   ensures  @hist unchanged(self.Validators) && self.BlockIndex == old(self.BlockIndex) && self.ViewNumber >= old(self.ViewNumber) && self.MyIndex == old(self.MyIndex)
 //@   ensures  [C15] @sameBase self.lastBlockTimestamp == old(self.lastBlockTimestamp)
-//@   ensures  @arms gTimerArms >= old(gTimerArms) && gBroadcasts >= old(gBroadcasts)
+//@   ensures  @arms gTimerArms >= old(gTimerArms) && gBroadcasts >= old(gBroadcasts) && gInbound >= old(gInbound)
 //@   ensures  [C05] @decidedStays implies(old(self.blockProcessed), self.blockProcessed)
 //@   ensures  [C05,C07] @handedOver handedOver()
 //@   ensures  [C11] @seenMono seenMono()
@@ -370,7 +374,7 @@ package dbft
 //@ bundle LOOPU
 //@   use INV
 //@   ensures [C15] @sameBase self.lastBlockTimestamp == old(self.lastBlockTimestamp)
-//@   ensures gBroadcasts >= old(gBroadcasts)
+//@   ensures gBroadcasts >= old(gBroadcasts) && gInbound >= old(gInbound)
 //@   ensures [C05] @cacheKeptPurged implies(old(cachePurged()), cachePurged())
 //@   ensures [C05] @decidedStays implies(old(self.blockProcessed), self.blockProcessed)
 //@   ensures [C05,C07] @handedOver handedOver()
@@ -776,6 +780,8 @@ package dbft
 //@   ensures @arms gTimerArms >= old(gTimerArms) && gBroadcasts >= old(gBroadcasts)
 //@   ensures [C05] @cachePurged implies(view == 0, cachePurged())
 //@   ensures [C05] @cacheKeptPurged implies(old(cachePurged()), cachePurged())
+// C05: payloads received early for the height being entered are taken into account (each goes through OnReceive)
+//@   ensures [C05] @earlyPayloadsReplayed forall(h, implies(h == self.BlockIndex && old(has(self.cache.mail, h)) && old(nonEmptyInbox(self.cache.mail[h])), gInbound > old(gInbound)))
 //@   ensures [C03] @freshStart implies(old(forall(h, !has(self.cache.mail, h))), forall(i, 0, NN(), self.PreparationPayloads[i] == nil && self.CommitPayloads[i] == nil && self.PreCommitPayloads[i] == nil) || view > 0)
 //@   ensures [C05] @freshStartView implies(old(forall(h, !has(self.cache.mail, h))) && view == 0, self.ViewNumber == 0 && !self.blockProcessed)
 //@   loop 1: use INV
@@ -783,24 +789,31 @@ package dbft
 //@   loop 1: invariant [C15] @sameBase self.lastBlockTimestamp == ts
 //@   loop 1: invariant [C05,C07] @handedOver implies(view > 0, handedOver())
 //@   loop 1: invariant [C11] @seenMono implies(view > 0, seenMono())
+//@   loop 1: invariant [C05] @replayed gInbound >= old(gInbound) && forall(q, implies(visited(q), gInbound > old(gInbound))) && self.BlockIndex == before(self.BlockIndex)
 //@   loop 1: invariant [C05] @cachePurged implies(view == 0, cachePurged()) && implies(old(cachePurged()), cachePurged())
 //@   loop 2: use INV
 //@   loop 2: invariant self.ViewNumber >= view && implies(view > 0, sameHeight()) && heapMono() && inboxOK(msgs) && gTimerArms >= old(gTimerArms) && gBroadcasts >= old(gBroadcasts)
 //@   loop 2: invariant [C15] @sameBase self.lastBlockTimestamp == ts
 //@   loop 2: invariant [C05,C07] @handedOver implies(view > 0, handedOver())
 //@   loop 2: invariant [C11] @seenMono implies(view > 0, seenMono())
+//@   loop 2: invariant [C05] @replayed gInbound >= old(gInbound) && forall(q, implies(visited(q), gInbound > old(gInbound))) && self.BlockIndex == before(self.BlockIndex)
+//@   loop 2: invariant [C05] @replayedBefore forall(h, implies(h == self.BlockIndex && old(has(self.cache.mail, h)) && old(nonEmptyInbox(self.cache.mail[h])), gInbound > old(gInbound)))
 //@   loop 2: invariant [C05] @cachePurged implies(view == 0, cachePurged()) && implies(old(cachePurged()), cachePurged())
 //@   loop 3: use INV
 //@   loop 3: invariant self.ViewNumber >= view && implies(view > 0, sameHeight()) && heapMono() && inboxOK(msgs) && gTimerArms >= old(gTimerArms) && gBroadcasts >= old(gBroadcasts)
 //@   loop 3: invariant [C15] @sameBase self.lastBlockTimestamp == ts
 //@   loop 3: invariant [C05,C07] @handedOver implies(view > 0, handedOver())
 //@   loop 3: invariant [C11] @seenMono implies(view > 0, seenMono())
+//@   loop 3: invariant [C05] @replayed gInbound >= old(gInbound) && forall(q, implies(visited(q), gInbound > old(gInbound))) && self.BlockIndex == before(self.BlockIndex)
+//@   loop 3: invariant [C05] @replayedBefore forall(h, implies(h == self.BlockIndex && old(has(self.cache.mail, h)) && old(nonEmptyInbox(self.cache.mail[h])), gInbound > old(gInbound)))
 //@   loop 3: invariant [C05] @cachePurged implies(view == 0, cachePurged()) && implies(old(cachePurged()), cachePurged())
 //@   loop 4: use INV
 //@   loop 4: invariant self.ViewNumber >= view && implies(view > 0, sameHeight()) && heapMono() && inboxOK(msgs) && gTimerArms >= old(gTimerArms) && gBroadcasts >= old(gBroadcasts)
 //@   loop 4: invariant [C15] @sameBase self.lastBlockTimestamp == ts
 //@   loop 4: invariant [C05,C07] @handedOver implies(view > 0, handedOver())
 //@   loop 4: invariant [C11] @seenMono implies(view > 0, seenMono())
+//@   loop 4: invariant [C05] @replayed gInbound >= old(gInbound) && forall(q, implies(visited(q), gInbound > old(gInbound))) && self.BlockIndex == before(self.BlockIndex)
+//@   loop 4: invariant [C05] @replayedBefore forall(h, implies(h == self.BlockIndex && old(has(self.cache.mail, h)) && old(nonEmptyInbox(self.cache.mail[h])), gInbound > old(gInbound)))
 //@   loop 4: invariant [C05] @cachePurged implies(view == 0, cachePurged()) && implies(old(cachePurged()), cachePurged())
 // A-VIEW / A-RTT: the timeout arithmetic is checked for overflow only under the view bound, a bounded RTT average and a non-zero last block time
 //@   wraps * unless aview() && 0 <= self.rttEstimates.avg && self.rttEstimates.avg <= 2305843009213693952 && self.lastBlockTime != tzero() && self.lastBlockIndex < 4294967295
@@ -836,6 +849,8 @@ package dbft
 //@ func (*DBFT).OnReceive
 //@   use U
 //@   requires msg != nil
+//@   ghost gInbound = gInbound + 1
+//@   ensures [C05] @counted gInbound > old(gInbound)
 //@   ensures [C05] @quiescent implies(old(self.blockProcessed), quiet() && (gBroadcasts == old(gBroadcasts) || (msg.Type() == RecoveryRequestType && gLastBcast.Type() == RecoveryMessageType && gBroadcasts == old(gBroadcasts) + 1)))
 //@   ensures [C11] @badIndex implies(msg.ValidatorIndex() >= old(NN()), ignored() && unchanged(self.LastSeenMessage) && cacheSame())
 //@   ensures [C11] @pastHeight implies(msg.ValidatorIndex() < old(NN()) && msg.Payload() != nil && msg.Height() < old(self.BlockIndex), ignored() && unchanged(self.LastSeenMessage) && cacheSame())
@@ -975,6 +990,7 @@ package dbft
 //@   requires cacheOK()
 //@   ensures cacheOK() && (result == nil || inboxOK(result))
 //@   ensures implies(!old(has(self.cache.mail, h)), result == nil)
+//@   ensures [C05] @handsOutInbox implies(old(has(self.cache.mail, h)), result == old(self.cache.mail[h]))
 //@   ensures [C05] @purged forall(k, implies(has(self.cache.mail, k), k > h && old(has(self.cache.mail, k)) && self.cache.mail[k] == old(self.cache.mail[k])))
 //@   modifies cache.mail
 //@ func (*cache).addMessage
